@@ -123,7 +123,6 @@ def _sites():
         w("cb_replacer", "JSON.stringify({a: 1}, function (k, v) { __out(20); %s })" % inner)
         w("cb_reviver", 'JSON.parse("[1]", function (k, v) { __out(20); %s })' % inner)
         w("cb_toJSON", "JSON.stringify({toJSON: function () { __out(20); %s }})" % inner)
-        w("cb_Array_from", "Array.from([1], function (v) { __out(20); %s })" % inner)
         w("getter", "G.p", ["var G = {get p() { __out(20); %s }};" % inner], "setup", "accessor")
         w("setter", "G.p = 1", ["var G = {set p(v) { __out(20); %s }};" % inner], "setup", "accessor")
         vo = ["var V = {valueOf: function () { __out(20); %s }};" % inner]
